@@ -587,6 +587,7 @@ def _run_job(pl, res):
     nmatched = len(sels)
     sels = sels + unmatched
     open_snap = snap(l0, names)
+    l_dtypes = (np.asarray(l0.fullsteps).dtype.kind, np.asarray(l0.fulltimes).dtype.kind)
     l0.close()
     guard(0)
     ops = alphabet(ab, nmatched, pl['thorough'], len(unmatched))
@@ -731,6 +732,20 @@ def _run_job(pl, res):
     res['sorted_times'] = all(a < b for a, b in zip(ab.times, ab.times[1:]))
     res['sorted_steps'] = all(a < b for a, b in zip(ab.steps, ab.steps[1:]))
     res['rounding_sensitive'] = 0
+    # the printed-table abstraction (Uniform.v) and what the sentinel measurement says about each table at each result set
+    try:
+        printed, sizes = printed_tables(path, skip)
+        res['uni_line'], extra = uniformity_case(printed, sizes, skip, [(0, int(ab.steps[i])) for i in range(ab.n)])
+        codes = dict(TABLE_CODES); codes.update(extra)
+        pat = {}
+        for ti, nme in enumerate(names):
+            pat[str(codes.get(nme, -1))] = ''.join('A' if ab.assigned[i][ti].all() else ('-' if not ab.assigned[i][ti].any() else '?') for i in range(ab.n))
+        res['measured_pattern'] = pat
+        res['printed_first'] = [n for (a, n) in printed[0]] if printed else []
+        res['printed_extra'] = sorted(set(n for ev in printed[1:] for (a, n) in ev) - set(n for (a, n) in printed[0])) if printed else []
+    except Exception as e:
+        res['uni_error'] = repr(e)[:300]
+    res['dtypes'] = {'fullsteps': l_dtypes[0], 'fulltimes': l_dtypes[1]}
     res['wall'] = round(time.time() - t_start, 2)
     # perturbed-variant probe for non-uniform listings (known finding)
     if ab.nonuniform and pl.get('probe_nonuniform', True):
@@ -807,6 +822,106 @@ def probe_nonuniform(path, skip, ab, pl):
             if found: break
         out.append(found or {'key': key, 'input': dict(pl['inp']), 'differs': None, 'observed': 'no single-number perturbation located for table %s at set %d' % (name, i), 'required': ''})
     return out
+
+
+TABLE_CODES = {'element': 0, 'element1': 1, 'connection': 2, 'primary': 3, 'element2': 4, 'generation': 5}
+
+
+def table_code(name, extra):
+    if name in TABLE_CODES: return TABLE_CODES[name]
+    if name not in extra: extra[name] = 6 + len(extra)
+    return extra[name]
+
+
+def printed_tables(path, skip):
+    """Per full result set the sequence of tables the reader meets there and what it does with each
+    ('read' / 'skip'), observed from outside by wrapping the instance's read_table / skip_table
+    (no change to the reader).  This is the printed-table abstraction of coq/C07/Uniform.v."""
+    lst = open_listing(path, skip)
+    events = []
+    rt, st = lst.read_table, lst.skip_table
+
+    def read_table(name): events.append(('read', name)); return rt(name)
+
+    def skip_table(name): events.append(('skip', name)); return st(name)
+    lst.read_table, lst.skip_table = read_table, skip_table
+    out = []
+    for i in range(lst.num_fulltimes):
+        del events[:]
+        lst.index = i
+        out.append(list(events))
+    sizes = {n: int(getattr(lst, n)._data.size) for n in lst.table_names}
+    lst.close()
+    return out, sizes
+
+
+def uniformity_case(printed, sizes, skip, times_steps):
+    """the `uni` case line of the extracted model for one listing, and the table codes used"""
+    extra = {}
+    sets = ''
+    for (t, k), ev in zip(times_steps, printed):
+        sets += '%d:%d:%s;' % (t, k, ''.join('%d/%d,' % (table_code(n, extra), sizes.get(n, 0) if a == 'read' else 0) for (a, n) in ev))
+    skipc = ''.join('%d,' % table_code(n, extra) for n in (skip or []))
+    return '\t'.join(['uni', skipc, sets]), extra
+
+
+def table_job(pl):
+    """Correspondence for coq/C07/Table.v: random small listingtable objects (string-named and tuple-named
+    rows, duplicate row names, a row name that is also a column name, reverse keys on and off) under random
+    interleavings of reads (by index incl. negative and out of range, by row name, by REVERSED row name, by
+    column name, by unknown name) and writes; the same key is read again after writes."""
+    from t2listing import listingtable
+    rng = random.Random(pl['seed'])
+    lines, impl = [], []
+
+    def enc(k):
+        if isinstance(k, tuple): return '.'.join(str(1000 + int(p[1:])) for p in k)
+        return '.'.join(str(ord(c)) for c in k)
+
+    def fmt(vals): return '.'.join('%d' % int(v) for v in vals)
+    for _ in range(pl['cases']):
+        tuples = rng.random() < 0.6
+        rev = rng.random() < 0.7
+        ncol = rng.randint(1, 3)
+        cols = rng.sample(['x', 'y', 'ab', 'ba', 'c'], ncol)
+        nrow = rng.randint(0, 5)
+        if tuples: pool = [('b%d' % a, 'b%d' % b) for a in range(3) for b in range(3)]
+        else: pool = ['a', 'b', 'ab', 'ba', 'abc', 'cba', 'x', 'c']
+        rows = [rng.choice(pool) for _ in range(nrow)]
+        t = listingtable(list(cols), list(rows), num_keys=2 if tuples else 1, allow_reverse_keys=rev)
+        data = [[rng.randint(-9, 9) for _ in range(ncol)] for _ in range(nrow)]
+        for i, v in enumerate(data): t[i] = v
+        ops, outs = [], []
+        hot = [rng.choice(pool) for _ in range(2)]           # keys that are read again and again
+        for _ in range(rng.randint(4, 14)):
+            u = rng.random()
+            if u < 0.5:
+                k = rng.choice(hot + [rng.choice(pool)]) if rng.random() < 0.8 else rng.choice(cols)
+                if rng.random() < 0.4: k = k[::-1]
+                ops.append('gn' + enc(k))
+                try: r = t[k]
+                except Exception: r = 'E'
+            elif u < 0.7:
+                i = rng.randint(-nrow - 1, nrow)
+                ops.append('gi%d' % i)
+                try: r = t[i]
+                except Exception: r = 'E'
+            else:
+                v = [rng.randint(-9, 9) for _ in range(ncol)]
+                if rng.random() < 0.5:
+                    i = rng.randint(-nrow - 1, nrow); ops.append('pi%d=%s' % (i, fmt(v))); key = i
+                else:
+                    key = rng.choice(hot + [rng.choice(pool)]); ops.append('pn%s=%s' % (enc(key), fmt(v)))
+                try: t[key] = v; r = 'O'
+                except Exception: r = 'E'
+            if r is None: outs.append('N')
+            elif isinstance(r, str): outs.append(r)
+            elif isinstance(r, dict): outs.append('R%s=%s' % (enc(r['key']), fmt([r[c] for c in cols])))
+            else: outs.append('C' + fmt(list(r)))
+        lines.append('\t'.join(['tab', ''.join(enc(c) + ',' for c in cols), ''.join(enc(r) + ',' for r in rows), '1' if rev else '0',
+                                 ''.join(fmt(v) + ',' for v in data), ''.join(o + ';' for o in ops)]))
+        impl.append(';'.join(outs))
+    return {'lines': lines, 'impl': impl}
 
 
 def worker_main():
@@ -920,6 +1035,41 @@ def correspond_and_collect(ctx, exe, results, timeout):
         outs = vf.run_driver(exe, lines, shards=min(8, vf.NPROC, len(lines)))
     else:
         outs = [None] * len(lines)
+    # uniformity: the extracted model decides the structural condition and predicts which tables are assigned where
+    uni = [(j, r) for (j, r) in keep if r.get('uni_line')]
+    if exe and uni:
+        uouts = vf.run_driver(exe, [r['uni_line'] for _, r in uni], shards=1)
+        ok_n, ok_labels, bad_labels = 0, [], []
+        for (j, r), uo in zip(uni, uouts):
+            parts = (uo or '').split(' ')
+            if len(parts) < 2:
+                ctx.disagreement('uniformity-model-vs-t2listing', {'input': j['inp']}, uo, 'a result line'); continue
+            okflag, kn = parts[0], [c for c in parts[1].split(',') if c]
+            rows = parts[2:]
+            pred = {c: ''.join(row[k] for row in rows if k < len(row)) for k, c in enumerate(kn)}
+            if pred != r['measured_pattern']:
+                ctx.disagreement('uniformity-model-vs-t2listing', {'input': j['inp'], 'what': 'per table (code) one letter per result set: A assigned in full, - not assigned, ? partly'},
+                                 json.dumps(pred, sort_keys=True), json.dumps(r['measured_pattern'], sort_keys=True))
+            measured_uniform = not r['nonuniform']
+            if okflag == '1':
+                ok_n += 1
+                if not measured_uniform:
+                    ctx.disagreement('uniformity-model-vs-t2listing', {'input': j['inp'], 'what': 'structural condition holds but the sentinel measurement finds unassigned cells'}, 'uniform', 'not uniform')
+            else: bad_labels.append(j['label'])
+            ctx.count(('uni', j['label']))
+        ctx.corr_cases('uniformity-model-vs-t2listing', len(uni), listings_with_extra_tables=sum(1 for _, r in uni if r.get('printed_extra')))
+        ctx.hyp_met['struct_okb: every result set prints every table of the first (nav_state_is_fresh_if_structurally_uniform)'] = {
+            'met': ok_n, 'not_met': len(uni) - ok_n, 'not_met_listings': bad_labels[:12]}
+    for j, r in keep:
+        if r.get('uni_error'):
+            ctx.proof_failures.append({'kind': 'harness', 'name': 'printed-tables:' + j['label'], 'detail': r['uni_error']})
+        dt = r.get('dtypes') or {}
+        if dt and (dt.get('fullsteps') != 'i' or dt.get('fulltimes') != 'f'):
+            ctx.proof_failures.append({'kind': 'assumption', 'name': 'steps-signed-times-float:' + j['label'],
+                                       'detail': 'fullsteps dtype kind %r, fulltimes dtype kind %r; the theorems set_step_nearest / set_time_nearest assume signed integer steps (exact subtraction) and float64 times' % (dt.get('fullsteps'), dt.get('fulltimes'))})
+    ctx.hyp_met['fullsteps signed integer, fulltimes float (set_step_nearest, set_time_nearest)'] = {
+        'met': sum(1 for _, r in keep if (r.get('dtypes') or {}).get('fullsteps') == 'i' and (r.get('dtypes') or {}).get('fulltimes') == 'f'),
+        'not_met': sum(1 for _, r in keep if not ((r.get('dtypes') or {}).get('fullsteps') == 'i' and (r.get('dtypes') or {}).get('fulltimes') == 'f'))}
     tot_ops = tot_seq = 0
     kinds, opk, complete = {}, {}, {}
     uniform, nonuniform = [], []
@@ -970,6 +1120,22 @@ def correspond_and_collect(ctx, exe, results, timeout):
     return keep
 
 
+def table_correspondence(ctx, exe, ncases):
+    """coq/C07/Table.v against the public class t2listing.listingtable"""
+    if not exe: return
+    try: r = call_worker(ctx, {'fn': 'table_job', 'cases': ncases, 'seed': ctx.rng.randrange(1 << 30)}, 900)
+    except Exception as e:
+        ctx.proof_failures.append({'kind': 'harness', 'name': 'table-job', 'detail': repr(e)[-800:]}); return
+    outs = vf.run_driver(exe, r['lines'], shards=1)
+    nops = 0
+    for line, mo, io in zip(r['lines'], outs, r['impl']):
+        nops += io.count(';') + 1
+        ctx.count(('tab', line))
+        if mo != io:
+            ctx.disagreement('table-model-vs-listingtable', {'case': line.replace('\t', ' | ')[:400]}, (mo or '')[:300], io[:300])
+    ctx.corr_cases('table-model-vs-listingtable', len(r['lines']), operations=nops)
+
+
 def run(ctx):
     ctx.rule = ('listings: every shipped file under tests/listing with >= 2 full result sets, truncated copies (quick: 1 and 2 result sets; thorough: 1..N) and '
                 'skip_tables variants; per listing an alphabet of ~25-30 actions {first,last,next,prev, index in {0,1,N/2,N-1,-1,-N,N,-N-1}, '
@@ -1001,6 +1167,7 @@ def run(ctx):
         for j in jobs: j['want_ops'] = True
         results = run_jobs(ctx, jobs, timeout)
         keep = correspond_and_collect(ctx, exe, results, timeout)
+        table_correspondence(ctx, exe, 30000 if ctx.thorough else 3000)
         for j, r in keep[:3]:
             ctx.sample({'listing': j['label'], 'simulator': r['sim'], 'result_sets': r['n'], 'alphabet': r['alphabet'],
                         'first_sequence': (r.get('seq_ops') or [[]])[0], 'observations': r['impl_lines'][0][:200]})
